@@ -267,3 +267,52 @@ M['C04'] = [
     dict(id='c04-benign-clear-via-init', kind='benign', edits=[
         ('src/hash.c', '    h->bucket.count = 0;\n    h->bucket.capacity = 0;\n    h->bucket.hash = NULL;\n\n    h->bucket.rh.hash = NULL;\n\n    h->count = 0;', '    cstl_hash_init(h, h->off);')]),
 ]
+
+# ------------------------------------------------------------------------------------------- C19
+M['C19'] = [
+    dict(id='c19-load-divides-by-current-count', kind='fault', rule='S1', edits=[
+        ('include/cstl/hash.h', '    size_t count = h->bucket.count;\n    if (h->bucket.rh.hash != NULL) {\n        count = h->bucket.rh.count;\n    }\n    return (float)h->count / count;', '    return (float)h->count / h->bucket.count;')]),
+    dict(id='c19-load-always-pending-count', kind='fault', rule='S1', edits=[
+        ('include/cstl/hash.h', '    size_t count = h->bucket.count;\n    if (h->bucket.rh.hash != NULL) {\n        count = h->bucket.rh.count;\n    }\n    return (float)h->count / count;', '    return (float)h->count / h->bucket.rh.count;')]),
+    dict(id='c19-revert-resize-decision', kind='fault', rule='S2', edits=[
+        ('src/hash.c', '            && (count != cur_count\n                || (hash != NULL\n                    && hash != cur_hash))) {', '            && (count != h->bucket.count\n                || (hash != NULL\n                    && hash != h->bucket.hash))) {')]),
+    dict(id='c19-resize-decision-count-only-fixed', kind='fault', rule='S2', edits=[
+        ('src/hash.c', '                    && hash != cur_hash))) {', '                    && hash != h->bucket.hash))) {')]),
+    dict(id='c19-keyed-op-runs-completer', kind='fault', rule='S3', edits=[
+        ('src/hash.c', '        __cstl_hash_rehash(h, 1);\n\n        bk = _bk;', '        cstl_hash_rehash(h);\n\n        bk = _bk;')]),
+    dict(id='c19-quota-size-max', kind='fault', rule='S3', edits=[
+        ('src/hash.c', '        __cstl_hash_rehash(h, 1);\n\n        bk = _bk;', '        __cstl_hash_rehash(h, SIZE_MAX);\n\n        bk = _bk;')]),
+    dict(id='c19-quota-zero', kind='fault', rule='S3', edits=[
+        ('src/hash.c', '        __cstl_hash_rehash(h, 1);\n\n        bk = _bk;', '        __cstl_hash_rehash(h, 0);\n\n        bk = _bk;')]),
+    dict(id='c19-quota-from-table-size', kind='fault', rule='S3', edits=[
+        ('src/hash.c', '        __cstl_hash_rehash(h, 1);\n\n        bk = _bk;', '        __cstl_hash_rehash(h, h->bucket.count / 4 + 1);\n\n        bk = _bk;')]),
+    dict(id='c19-no-sweep-in-keyed-path', kind='fault', rule='S3', edits=[
+        ('src/hash.c', '        __cstl_hash_rehash(h, 1);\n\n        bk = _bk;', '        bk = _bk;')]),
+    dict(id='c19-sweep-ignores-quota', kind='fault', rule='S3', edits=[
+        ('src/hash.c', '    while (h->bucket.rh.clean < h->bucket.count && n > 0) {\n        cstl_clean_bucket(h, &h->bucket.at[h->bucket.rh.clean]);\n        h->bucket.rh.clean++;\n        n--;\n    }',
+         '    while (h->bucket.rh.clean < h->bucket.count) {\n        cstl_clean_bucket(h, &h->bucket.at[h->bucket.rh.clean]);\n        h->bucket.rh.clean++;\n    }\n    (void)n;')]),
+    dict(id='c19-completion-forgets-hash', kind='fault', rule='S4', edits=[
+        ('src/hash.c', '        h->bucket.count = h->bucket.rh.count;\n        h->bucket.hash = h->bucket.rh.hash;\n', '        h->bucket.count = h->bucket.rh.count;\n')]),
+    dict(id='c19-completion-clears-before-adopting', kind='fault', rule='S4', edits=[
+        ('src/hash.c', '        h->bucket.count = h->bucket.rh.count;\n        h->bucket.hash = h->bucket.rh.hash;\n\n        h->bucket.rh.hash = NULL;', '        h->bucket.rh.hash = NULL;\n        h->bucket.count = h->bucket.rh.count;\n        h->bucket.hash = h->bucket.rh.hash;')]),
+    dict(id='c19-resize-keeps-old-function', kind='fault', rule='S4', edits=[
+        ('src/hash.c', '            if (hash != NULL) {\n                h->bucket.rh.hash = hash;\n            } else if (h->bucket.hash != NULL) {', '            if (hash != NULL && h->bucket.hash == NULL) {\n                h->bucket.rh.hash = hash;\n            } else if (h->bucket.hash != NULL) {')]),
+    dict(id='c19-resize-sweep-index-not-reset', kind='fault', rule='S4', edits=[
+        ('src/hash.c', '            h->bucket.rh.count = count;\n            h->bucket.rh.clean = 0;', '            h->bucket.rh.count = count;')]),
+    dict(id='c19-lookup-hashes-twice', kind='fault', rule='S5', edits=[
+        ('src/hash.c', '    bk = __cstl_hash_get_bucket(h, k, h->bucket.hash, h->bucket.count);\n', '    bk = __cstl_hash_get_bucket(h, k, h->bucket.hash, h->bucket.count);\n    if (bk->n == NULL) {\n        bk = __cstl_hash_get_bucket(h, k, h->bucket.hash, h->bucket.count);\n    }\n')]),
+    dict(id='c19-benign-completer-first-resize', kind='benign', edits=[
+        ('src/hash.c', '        size_t cur_count = h->bucket.count;\n        cstl_hash_func_t * cur_hash = h->bucket.hash;\n\n        if (h->bucket.rh.hash != NULL) {\n            cur_count = h->bucket.rh.count;\n            cur_hash = h->bucket.rh.hash;\n        }\n',
+         '        size_t cur_count;\n        cstl_hash_func_t * cur_hash;\n\n        cstl_hash_rehash(h);\n        cur_count = h->bucket.count;\n        cur_hash = h->bucket.hash;\n')]),
+    dict(id='c19-benign-load-ternary', kind='benign', edits=[
+        ('include/cstl/hash.h', '    size_t count = h->bucket.count;\n    if (h->bucket.rh.hash != NULL) {\n        count = h->bucket.rh.count;\n    }\n    return (float)h->count / count;', '    const size_t count = (h->bucket.rh.hash == NULL) ? h->bucket.count : h->bucket.rh.count;\n    return (float)h->count / count;')]),
+    dict(id='c19-benign-effective-count-helper', kind='benign', edits=[
+        ('src/hash.c', 'void cstl_hash_resize(struct cstl_hash * const h,', 'static size_t effective_count(const struct cstl_hash * const h)\n{\n    if (h->bucket.rh.hash != NULL) {\n        return h->bucket.rh.count;\n    }\n    return h->bucket.count;\n}\n\nvoid cstl_hash_resize(struct cstl_hash * const h,'),
+        ('src/hash.c', '            && (count != cur_count\n', '            && (count != effective_count(h)\n')]),
+    dict(id='c19-benign-quota-two', kind='benign', edits=[
+        ('src/hash.c', '        cstl_clean_bucket(h, bk);\n        cstl_clean_bucket(h, _bk);\n', '        cstl_clean_bucket(h, _bk);\n'),
+        ('src/hash.c', '        __cstl_hash_rehash(h, 1);\n\n        bk = _bk;', '        __cstl_hash_rehash(h, 2);\n\n        bk = _bk;')]),
+]
+M['C19'].append(dict(id='c19-current-count-helper', kind='fault', rule='S2', edits=[
+    ('src/hash.c', 'void cstl_hash_resize(struct cstl_hash * const h,', 'static size_t table_count(const struct cstl_hash * const h)\n{\n    return h->bucket.count;\n}\n\nvoid cstl_hash_resize(struct cstl_hash * const h,'),
+    ('src/hash.c', '            && (count != cur_count\n', '            && (count != table_count(h)\n')]))
